@@ -16,7 +16,8 @@ func init() {
 			"(R2) on that path the fetched state gets UnSafe=true, Cancelled=true and Safe=false before a successful SaveTxState, which precedes HandleTxUpdate, and HandleTxUpdate is reached on every non-error path of the branch; " +
 			"(R3) the cancel is guarded by membership of the conflicting txid in the unconfirmed snapshot; " +
 			"(R4) in MemPool.Conflicting every hash appended to the result is passed to removeTransaction in the same iteration; " +
-			"(R5) the cancel branch has no exit other than error returns, so the confirming tx continues to relevance classification (its leaf is added exactly once per iteration, see C04.R3).",
+			"(R5) the cancel branch has no exit other than error returns, so the confirming tx continues to relevance classification (its leaf is added exactly once per iteration, see C04.R3); " +
+			"(R6) every block tx that was neither in the unconfirmed snapshot nor in the mempool reaches MemPool.Conflicting in its iteration, whatever its own relevance; (R7) Conflicting does not iterate the live map-held spender list while removing from it; (R8) every block tx, also one seen before it confirmed, reaches MemPool.Conflicting in its iteration.",
 		NotDecided:  "the interaction of mempool, unconfirmed set, tx-state store and block store over a history; which txs Conflicting returns for a given pool.",
 		Assumptions: []string{"containsHash is a pure membership test"},
 		Tech:        "value provenance in a ranged loop, path typestate (flags → save → notify), guard edge cut-sets, per-iteration pairing",
@@ -204,6 +205,11 @@ func runC06(c *Check) {
 	}
 	c.Min("R3", "containsHash(conflict, unconfirmed) guards", nGuard, 1)
 
+	c.ruleConflictingIteratesCopy("R7")
+
+	// R6 (added after seeded round 2)
+	c.ruleConflictingForEveryUnseenTx("R6", "R8")
+
 	// R4 Conflicting removes what it returns
 	if cf := c.Fn("R4", "state.(*MemPool).Conflicting"); cf != nil {
 		n := 0
@@ -211,6 +217,28 @@ func runC06(c *Check) {
 			for _, in := range b.Instrs {
 				call, ok := in.(*ssa.Call)
 				if !ok || builtinCall(call, "append") == nil {
+					continue
+				}
+				// an append whose result is only iterated (a copy of the list) is not the accumulator
+				iterated := false
+				for _, r := range *call.Referrers() {
+					if lc, ok := r.(*ssa.Call); ok && builtinCall(lc, "len") != nil {
+						iterated = true
+					}
+				}
+				if iterated {
+					continue
+				}
+				// only appends that build the returned list
+				returned := false
+				for _, ret := range returnsOf(cf) {
+					for _, v := range resultValues(ret, 0) {
+						if derivesFromValue(v, call) {
+							returned = true
+						}
+					}
+				}
+				if !returned {
 					continue
 				}
 				n++
